@@ -473,6 +473,36 @@ def judge_step(ctx, case, step, prev, depth):
                      "opposite sides of the parallel" + (f" ({ties} edge end nodes lie exactly on it)" if ties else ""),
                      dict(faces=faces, z_constant=c, ties=ties), None, ["crosssec_iff"])
                 return
+        # the property's own terms: "the latitude equals a NODE's latitude" is about node_lat AS THE SOURCE GAVE IT.  For a source
+        # given in lon/lat the same Lean clause (CrossExact) is therefore also decided in the latitude domain, on the source's
+        # node_lat doubles and the queried latitude (degrees): whatever the grid derives for node_z, a face all of whose corners lie
+        # on or above (on or below) the parallel must not be selected, a face with an edge strictly across it must be.
+        if "file" not in case:
+            nlat = np.asarray(g.node_lat.values, dtype=float)
+            if depth == 0 and not np.array_equal(nlat, np.asarray(case["lat"], dtype=float)):
+                ctx.hit("lat:node_lat-differs-from-source(lat-domain uses the source's)")
+                nlat = np.asarray(case["lat"], dtype=float)
+            ql = float(sel["lat"])
+            # independent of anything the grid derived: strict order of latitudes must be a clear order of sines
+            sn, sq = np.sin(np.deg2rad(nlat)), float(np.sin(np.deg2rad(ql)))
+            clear = bool(np.all((nlat == ql) | (np.abs(sn - sq) > MARGIN)))
+            if clear:
+                L = [(float(nlat[a]), float(nlat[b])) for a, b in EN]
+                lties = int(np.sum(nlat == ql))
+                ctx.hit("lat:judged-in-latitude-domain(source node_lat)")
+                if lties:
+                    ctx.hit("lat:latitude-domain-tie(node_lat == lat)")
+                for name, faces in (("cross_section", got_faces), ("get_faces_at_constant_latitude", direct)):
+                    ok = d.ask("C09.latexact", enc_float(ql), enc_fpairs(L), enc_rows(FE), enc_ints(N), enc_ints(faces))
+                    if ok != "1":
+                        fail(f"lat/{name}/faces/node_lat" + ("-tie" if lties else ""),
+                             f"{name}(lat={ql}): judged on the source's node latitudes, the faces are not those with an edge whose end "
+                             f"nodes lie strictly on opposite sides of the parallel ({lties} nodes have exactly this latitude; a face "
+                             "that only touches the parallel is selected, or a crossing face is missing)",
+                             dict(faces=faces, nodes_on_parallel=lties), None, ["crosssec_iff", "facesAt_meets_crossExact"])
+                        return
+            else:
+                ctx.hit("lat:latitude-domain-not-judged(near tie)")
         if sorted(direct) != sorted(got_faces):
             fail("lat/accessor-vs-method", "cross_section.constant_latitude and get_faces_at_constant_latitude select different faces",
                  dict(accessor=got_faces, method=direct))
@@ -990,6 +1020,26 @@ def exact_lat_cases(ctx):
         faces, lon, lat = _rll(lats, rng.choice([-170.0, -20.0, 100.0, 165.0]), 360.0 / nlon if wrap else 10.0, nlon, wrap)
         for q in rng.sample(lats, min(len(lats), ctx.n(2, 4))):
             add(faces, lon, lat, q, "rll%dx%d%s@row" % (nlon, len(lats) - 1, "ring" if wrap else ""))
+    # lattices with many rows (integer and non-integer degrees), EVERY row latitude queried: whether a derived node_z is the
+    # sine of the row's latitude bit for bit depends on the latitude (and on the longitude, if xyz is renormalised)
+    for rep in range(ctx.n(2, 5)):
+        step = rng.choice([10.0, 5.0, 7.5, 2.5, 3.3, 1.7, 12.25])
+        nrow = rng.randint(7, 11)
+        lo = -step * (nrow // 2) + (rng.choice([0.0, 0.0, 0.5, 1.3]) if rep else 0.0)
+        lats = [lo + j * step for j in range(nrow)]
+        if max(abs(x) for x in lats) >= 89:
+            continue
+        nlon = rng.randint(3, 5)
+        faces, lon, lat = _rll(lats, rng.choice([-173.0, -31.0, 0.0, 47.5, 160.0]), rng.choice([10.0, 7.0, 13.5]), nlon, False)
+        w = 4
+        for j, q in enumerate(lats):
+            case = dict(mesh=dict(kind="lattice%dx%d(step %g)@every-row" % (nlon, nrow - 1, step), n_node=len(lon), n_face=len(faces)),
+                        table=[list(f) for f in faces], lon=lon, lat=lat,
+                        history=["node_z"] if (j + rep) % 3 == 0 else [],
+                        sel=dict(kind="lat", lat=float(q), at_node=True), via="grid" if j % 2 == 0 else "uxda", order=[], geo=[], twin=[])
+            if case["via"] == "uxda":
+                case["data"] = dict(centre="face", lead=[], dtype="float")
+            out.append(case)
     # strips touching the parallel by edges and corners
     for lat0 in [0.0, 0.0, 30.0, -45.0, 12.5, round(rng.uniform(-70, 70) * 4) / 4][: ctx.n(4, 6)]:
         h = rng.choice([5.0, 7.5, 10.0])
@@ -1073,7 +1123,9 @@ def run(ctx):
                 "(40% antimeridian-spanning) / circle / k-nearest on nodes, face centres, edge centres, constant latitude (35% exactly a "
                 "node's latitude, plus lat-lon grids queried at their node rows and triangle strips touching the parallel by an edge / "
                 "a corner from above and below: JUDGED EXACTLY whenever sin(deg2rad(lat)) as numba computes it and the grid's own node z "
-                "are compared as the same doubles and no other node lies within 1e-9; 1/2/7/16 numba threads); through Grid or a UxDataArray (face / node / edge data, rank 1..3); 35% followed "
+                "are compared as the same doubles and no other node lies within 1e-9, AND — for sources given in lon/lat — judged by the same "
+                "Lean clause in the latitude domain on the source's own node_lat doubles (lattices of 7-11 rows at integer / non-integer "
+                "degrees queried at every row); 1/2/7/16 numba threads); through Grid or a UxDataArray (face / node / edge data, rank 1..3); 35% followed "
                 "by 1-2 further selections on the returned sub-grid, each after its own random materialisation on that sub-grid (every "
                 "sub-grid judged against its own source, data through the composed recorded indices, every derived attribute against the "
                 "same chain on un-materialised grids); distinct = distinct (table, history, selection, carrier, chain prefix)")
